@@ -290,8 +290,14 @@ func (h *Handler) saltAuthToken(req *http.Request, remote string) (updatedReq *h
 	}
 	updatedReq.Header = http.Header{}
 	for k, v := range req.Header {
-		if k != "Authorization" {
+		if k != "Authorization" && k != "Cookie" {
 			updatedReq.Header[k] = v
+		}
+	}
+	for _, c := range req.Cookies() {
+		// Don't forward the (unsalted) token cookie.
+		if c.Name != "arvados_api_token" {
+			updatedReq.AddCookie(c)
 		}
 	}
 	updatedReq.Header.Set("Authorization", "Bearer "+token)
